@@ -835,12 +835,13 @@ Proof.
   - cbn. apply del_put_absent. exact G.
 Qed.
 
-Definition not_size (e : entry) : Prop := match e with ESize _ _ => False | _ => True end.
+(* entries whose revert takes one count off journal.dirties, exactly what their append put on *)
+Definition not_size (e : entry) : Prop := match e with ESize _ _ => code_rejournal = false | _ => True end.
 
 Lemma undo_dirt_dirt_of d0 e j : dpos d0 -> not_size e -> undo_dirt e (dirt_of d0 (e :: j)) = dirt_of d0 j.
 Proof.
   intros P NS. cbn [dirt_of]. destruct e; cbn [undo_dirt dirtied]; try reflexivity;
-    try (apply ddec_dinc; apply dpos_dirt_of; exact P). destruct NS.
+    try (cbn [not_size] in NS; rewrite NS); apply ddec_dinc; apply dpos_dirt_of; exact P.
 Qed.
 
 Lemma rewind_dirt_image d0 n j : dpos d0 -> Forall not_size j ->
@@ -895,7 +896,7 @@ Proof. intros H. unfold get_or_new. destruct (live a (m_core m)); cbn [fst]; [ex
 
 Definition dirt_safe (o : op) : bool :=
   match o with
-  | OSetSize _ _ | OAddSize _ | OSubSize _ => false          (* sizeChange.revert re-journals *)
+  | OSetSize _ _ | OAddSize _ | OSubSize _ => negb code_rejournal   (* sizeChange.revert re-journals *)
   | OAddBalance a v => negb (keqb a ripemd && Z.eqb v 0)      (* RIPEMD touch stays dirty by design *)
   | _ => true
   end.
@@ -911,7 +912,7 @@ Qed.
 
 Lemma DI_mutate d0 fx o m : dirt_safe o = true -> DI d0 m -> DI d0 (fst (mutate fx o m)).
 Proof.
-  intros S H. destruct o; try discriminate; unfold mutate.
+  intros S H. destruct o; unfold mutate.
   - destruct (get_or_new a m) as [m1 ob] eqn:G. pose proof (DI_get_or_new d0 a m H) as H1. rewrite G in H1. cbn [fst] in H1.
     cbn [dirt_safe] in S. destruct (Z.eqb v 0); cbn [fst].
     + destruct (acct_empty ob); [|exact H1]. unfold touch.
@@ -931,6 +932,12 @@ Proof.
   - destruct (create_object a m) as [m1 prev] eqn:C. pose proof (DI_create_object d0 a m H) as H1. rewrite C in H1. cbn [fst] in H1.
     destruct prev; cbn [fst]; [apply DI_upd|]; exact H1.
   - cbn [fst]. apply DI_get_or_new. exact H.
+  - destruct (get_or_new a m) as [m1 ob] eqn:G. pose proof (DI_get_or_new d0 a m H) as H1. rewrite G in H1. cbn [fst] in H1.
+    cbn [fst dirt_safe] in *. apply negb_true_iff in S. unfold obj_set_size. apply DI_upd. apply DI_append; [exact S|exact H1].
+  - destruct (get_or_new a m) as [m1 ob] eqn:G. pose proof (DI_get_or_new d0 a m H) as H1. rewrite G in H1. cbn [fst] in H1.
+    cbn [fst dirt_safe] in *. apply negb_true_iff in S. unfold obj_set_size. apply DI_upd. apply DI_append; [exact S|exact H1].
+  - destruct (get_or_new a m) as [m1 ob] eqn:G. pose proof (DI_get_or_new d0 a m H) as H1. rewrite G in H1. cbn [fst] in H1.
+    cbn [fst dirt_safe] in *. apply negb_true_iff in S. unfold obj_set_size. apply DI_upd. apply DI_append; [exact S|exact H1].
   - cbn [fst]. apply DI_with_core. apply DI_append; [exact I|exact H].
   - destruct (get h (preim (m_core m))); cbn [fst]; [exact H|]. apply DI_with_core. apply DI_append; [exact I|exact H].
   - cbn [fst]. apply DI_with_core. apply DI_append; [exact I|exact H].
